@@ -29,7 +29,7 @@ def runner(prop, fam, tier, seed, replay=None):
         return rc
     try:
         last = os.path.join(vcheck.WORK, "last-" + prop, "tlc_impl__tlc.out")
-        ev_path = os.path.join(vcheck.VERIF, "evidence", prop + ".json")
+        ev_path = vcheck.evidence_path(prop)
         drift = _drift_lines(open(last, errors="replace").read()) if os.path.exists(last) else None
         ev = json.load(open(ev_path))
         if drift is not None:
